@@ -5,6 +5,7 @@ import Gv.Proofs.StatsUnique
 import Gv.Proofs.StatsDiff
 import Gv.Proofs.StatsMut
 import Gv.Proofs.StatsProfile
+import Gv.Proofs.StatsUniqueProf
 /-!
 # C14 — column statistics and consensus match definitions and are deterministic
 
@@ -651,7 +652,68 @@ theorem profileCountsAt_error_iff (prof : List (Byte × List Nat)) (i : Int) :
     have hlt : i.toNat < prof.length := by omega
     simp [List.getElem?_eq_getElem hlt]
 
+/-! ## unique gaps / mutations per sequence with a count profile -/
+
+/-- **`NumGapsUniquePerSequence(profile)`**, the profile being `NewCountProfileFromAlignment` of a second alignment
+`prows` (cached length `Lp`): the Go loops (no early exit; `numnew[j]++` at every gap the profile does not have;
+`numuniques` / `numboth` for the only gap of a column) return an error exactly when the length check fails (the
+profile holds a character and `Lp ≠ L`), and otherwise, for every row, the naive recounts of
+`Spec.gapsWithProfileOf`: (gaps that are the only one of their column, gaps at sites where no profile row has a
+gap, gaps that are both) -/
+theorem numGapsUniqueProf_eq_spec (rows prows : CRows) (L Lp : Int) (prof : List (Byte × List Nat))
+    (h : countProfile prows Lp = some prof) :
+    numGapsUniqueProf rows L prof =
+      if ((prows.flatMap Prod.snd).isEmpty || ((Lp.toNat : Int) == L)) then
+        some ((List.range rows.length).map (fun i => (Spec.gapsWithProfileOf rows prows L.toNat i).1),
+              (List.range rows.length).map (fun i => (Spec.gapsWithProfileOf rows prows L.toNat i).2.1),
+              (List.range rows.length).map (fun i => (Spec.gapsWithProfileOf rows prows L.toNat i).2.2))
+      else none :=
+  Proofs.StatsUniqueProf.numGapsUniqueProf_eq rows prows L Lp.toNat prof
+    (Proofs.StatsUniqueProf.profOf_of_countProfile prows Lp prof h)
+
+/-- **`NumMutationsUniquePerSequence(profile)`**: an error exactly when the length check fails; else an index panic
+exactly when one of the `L` columns holds a byte ≥ 130; otherwise, for every row, the naive recounts of
+`Spec.mutationsWithProfileOf`: (characters — neither gap nor wildcard — occurring once in their column, characters
+that no profile row has at that site, characters that are both) -/
+theorem numMutationsUniqueProf_eq_spec (rows prows : CRows) (L Lp : Int) (alphabet : Nat) (prof : List (Byte × List Nat))
+    (h : countProfile prows Lp = some prof) :
+    numMutationsUniqueProf rows L alphabet prof =
+      if !((prows.flatMap Prod.snd).isEmpty || ((Lp.toNat : Int) == L)) then some none
+      else if Spec.hasHighByte rows L.toNat then none
+      else some (some (
+        (List.range rows.length).map (fun i => (Spec.mutationsWithProfileOf (Spec.wildcardOf alphabet) rows prows L.toNat i).1),
+        (List.range rows.length).map (fun i => (Spec.mutationsWithProfileOf (Spec.wildcardOf alphabet) rows prows L.toNat i).2.1),
+        (List.range rows.length).map (fun i => (Spec.mutationsWithProfileOf (Spec.wildcardOf alphabet) rows prows L.toNat i).2.2))) :=
+  Proofs.StatsUniqueProf.numMutationsUniqueProf_eq rows prows L Lp.toNat alphabet prof
+    (Proofs.StatsUniqueProf.profOf_of_countProfile prows Lp prof h)
+
+/-- without a profile the first slice is what `NumGapsUniquePerSequence(nil)` returns: the profile only adds the
+other two -/
+theorem numGapsUniqueProf_first_eq_nil (rows prows : CRows) (L Lp : Int) (prof : List (Byte × List Nat))
+    (h : countProfile prows Lp = some prof) (t : List Nat × List Nat × List Nat)
+    (ht : numGapsUniqueProf rows L prof = some t) : t.1 = numGapsUnique rows L := by
+  rw [numGapsUniqueProf_eq_spec rows prows L Lp prof h] at ht
+  split at ht
+  · simp only [Option.some.injEq] at ht
+    subst ht
+    rw [Proofs.StatsUnique.numGapsUnique_eq]
+    rfl
+  · simp at ht
+
 /-! ## non-vacuity -/
+
+private def exProws : CRows := [("p", [65, 45, 78, 45]), ("q", [65, 67, 78, 84])]
+private def exGrows : CRows := [("a", [45, 45, 71, 45]), ("b", [65, 45, 45, 45]), ("c", [65, 67, 78, 45])]
+example : countProfile exProws 4 = some [(65, [2, 0, 0, 0]), (45, [0, 1, 0, 1]), (78, [0, 0, 2, 0]), (67, [0, 1, 0, 0]),
+    (84, [0, 0, 0, 1])] := by decide
+example : numGapsUniqueProf exGrows 4 ((countProfile exProws 4).getD []) = some ([1, 1, 0], [1, 1, 0], [1, 1, 0]) := by decide
+example : (List.range 3).map (Spec.gapsWithProfileOf exGrows exProws 4) = [(1, 1, 1), (1, 1, 1), (0, 0, 0)] := by decide
+set_option maxRecDepth 100000 in
+example : numMutationsUniqueProf exGrows 4 1 ((countProfile exProws 4).getD []) = some (some ([1, 0, 1], [1, 0, 0], [1, 0, 0])) := by
+  decide
+example : (List.range 3).map (Spec.mutationsWithProfileOf 78 exGrows exProws 4) = [(1, 1, 1), (0, 0, 0), (1, 0, 0)] := by decide
+example : numGapsUniqueProf exGrows 4 ((countProfile exProws 4).getD []) ≠ none ∧
+    numGapsUniqueProf [("a", [45])] 1 ((countProfile exProws 4).getD []) = none := by decide
 
 example : maxLoop false false 78 110 [(65, 2), (67, 2), (71, 1)] (71, 5, 0, 0) = (65, 2, 5, 2) := by decide
 example : maxLoop false false 78 110 [(67, 2), (71, 1), (65, 2)] (71, 5, 0, 0) = (65, 2, 5, 2) := by decide
